@@ -95,6 +95,16 @@ Qed.
 Lemma exit_set_h_plain m C H d tgt : is_history m tgt = false -> exit_set_h m C H d tgt = exit_set m C d tgt.
 Proof. unfold exit_set_h. now intros ->. Qed.
 
+(* a transition to the machine root has the whole machine as its domain; any other target: as computed below *)
+Lemma ext_exit_set_nonroot m C H d tgt : tgt <> 0 -> ext_exit_set m C H d tgt = exit_set_h m C H d tgt.
+Proof. intros Hne. unfold ext_exit_set. destruct (Nat.eqb_spec tgt 0); [contradiction | reflexivity]. Qed.
+Lemma ext_path_nonroot m tgt d : tgt <> 0 -> ext_path m tgt d = path_to m tgt d.
+Proof. intros Hne. unfold ext_path. destruct (Nat.eqb_spec tgt 0); [contradiction | reflexivity]. Qed.
+Lemma ext_exit_set_root m C H d : ext_exit_set m C H d 0 = C.
+Proof. reflexivity. Qed.
+Lemma ext_path_root m d : ext_path m 0 d = [0].
+Proof. reflexivity. Qed.
+
 Lemma exit_set_h_sub m C H d tgt x : In x (exit_set_h m C H d tgt) -> In x C /\ is_desc m x d = true /\ x <> d.
 Proof.
   unfold exit_set_h. intros Hx.
